@@ -304,7 +304,11 @@ func (c *compiler) compileType(y *Type, parent Leafable, isUnion bool) error {
 		}
 		// parent is a leaf, so start with parent's parent which is a container-ish
 		resolvedMeta := Find(parent, leafrefSchemaPath(y.path))
-		if resolvedMeta == nil {
+		if _, isTypedef := parent.(*Typedef); isTypedef && resolvedMeta == nil && !strings.HasPrefix(y.path, "/") {
+			// a relative path is about the leaf that gets this type, it is
+			// resolved there
+			y.delegate = y
+		} else if resolvedMeta == nil {
 			return fmt.Errorf("%s - %s path cannot be resolved", SchemaPath(parent), y.ident)
 		} else if target, hasType := resolvedMeta.(HasType); !hasType {
 			return fmt.Errorf("%s - %s path does not lead to a leaf", SchemaPath(parent), y.ident)
